@@ -952,7 +952,7 @@ class Constant(Term):
         Returns:
              $\mu(x) = k$
         """
-        y = np.full_like(x, fill_value=self.value)
+        y = np.full_like(scalar(x), fill_value=self.value)
         return y
 
     def parameters(self) -> str:
